@@ -62,36 +62,900 @@ def OpMono (m : Meta) : Op → Prop
   | .add now _ _ => ∀ s ∈ m.snaps, s.ts ≤ now
   | _ => True
 
-theorem wf_empty' : WF empty := by sorry
+
+theorem eq_of_id_eq {l : List Snap} (hnd : (l.map (·.id)).Nodup) {s t : Snap} (hs : s ∈ l) (ht : t ∈ l)
+    (h : s.id = t.id) : s = t := by
+  induction l with
+  | nil => cases hs
+  | cons a l ih =>
+    simp only [List.map_cons, List.nodup_cons, List.mem_map, not_exists, not_and] at hnd
+    simp only [List.mem_cons] at hs ht
+    rcases hs with rfl | hs <;> rcases ht with rfl | ht
+    · rfl
+    · exact absurd h.symm (hnd.1 t ht)
+    · exact absurd h (hnd.1 s hs)
+    · exact ih hnd.2 hs ht
+
+theorem find?_id {l : List Snap} (hnd : (l.map (·.id)).Nodup) {s : Snap} (hs : s ∈ l) :
+    l.find? (fun x => x.id == s.id) = some s := by
+  cases hf : l.find? (fun x => x.id == s.id) with
+  | none =>
+    rw [List.find?_eq_none] at hf
+    exact absurd (by simp) (hf s hs)
+  | some t =>
+    have h1 := List.mem_of_find?_eq_some hf
+    have h2 := List.find?_some hf
+    simp only [beq_iff_eq] at h2
+    rw [eq_of_id_eq hnd h1 hs h2]
+
+theorem parentOf_eq {all : List Snap} (hnd : (all.map (·.id)).Nodup) {s : Snap} (hs : s ∈ all) :
+    parentOf all s.id = s.parent := by
+  have hnd' : (all.reverse.map (·.id)).Nodup := by
+    exact ((List.reverse_perm all).map _).nodup_iff.2 hnd
+  have := find?_id hnd' (List.mem_reverse.2 hs)
+  simp only [parentOf, this]
+
+theorem Anc.trans {hist : List (Nat × P)} {a b c : Nat} (h1 : Anc hist a b) (h2 : Anc hist b c) : Anc hist a c := by
+  induction h2 with
+  | refl => exact h1
+  | step hm _ ih => exact Anc.step hm ih
+
+theorem Anc.mono {hist hist' : List (Nat × P)} (hsub : ∀ x ∈ hist, x ∈ hist') {a b : Nat} (h : Anc hist a b) :
+    Anc hist' a b := by
+  induction h with
+  | refl => exact Anc.refl _
+  | step hm _ ih => exact Anc.step (hsub _ hm) ih
+
+theorem reach_none {all : List Snap} {y : P} (h : Reach all P.none y) : y = P.none := by
+  cases h; rfl
+theorem reach_root {all : List Snap} {y : P} (h : Reach all P.root y) : y = P.root := by
+  cases h; rfl
+
+/-- along current parent links of a well-formed list we only move to true ancestors that are not younger -/
+theorem reach_wf {all : List Snap} {hist : List (Nat × P)} (hnd : (all.map (·.id)).Nodup)
+    (hpo : ∀ s ∈ all, ∀ p, s.parent = P.id p → ∃ q ∈ all, q.id = p ∧ q.born < s.born)
+    (hpa : ∀ s ∈ all, ∀ p, s.parent = P.id p → Anc hist p s.id)
+    {x y : P} (h : Reach all x y) :
+    ∀ sa ∈ all, x = P.id sa.id → ∀ q, y = P.id q → ∃ sq ∈ all, sq.id = q ∧ sq.born ≤ sa.born ∧ Anc hist q sa.id := by
+  induction h with
+  | refl p =>
+    intro sa hsa hx q hy
+    subst hx
+    cases hy
+    exact ⟨sa, hsa, rfl, Nat.le_refl _, Anc.refl _⟩
+  | @step n p hr ih =>
+    intro sa hsa hx q hy
+    cases hx
+    rw [parentOf_eq hnd hsa] at hr ih
+    cases hp : sa.parent with
+    | none => rw [hp] at hr; subst hy; cases reach_none hr
+    | root => rw [hp] at hr; subst hy; cases reach_root hr
+    | id p' =>
+      obtain ⟨sp, hsp, hspid, hspb⟩ := hpo sa hsa p' hp
+      obtain ⟨sq, hsq, hsqid, hsqb, hanc⟩ := ih sp hsp (by rw [hp, hspid]) q hy
+      refine ⟨sq, hsq, hsqid, by omega, ?_⟩
+      rw [hspid] at hanc
+      exact hanc.trans (hpa sa hsa p' hp)
+
+
+theorem walk_sound (all : List Snap) (kept : List Nat) :
+    ∀ (fuel : Nat) (start : P) (seen : List Nat), Good all kept start (walk all kept fuel start seen) := by
+  intro fuel
+  induction fuel with
+  | zero =>
+    intro start seen
+    cases start <;> simp [walk, Good, Reach.refl]
+  | succ n ih =>
+    intro start seen
+    cases start with
+    | none => simp [walk, Good]
+    | root => simp [walk, Good, Reach.refl]
+    | id p =>
+      simp only [walk]
+      by_cases hk : p ∈ kept
+      · simp [hk, Good, Reach.refl]
+      · by_cases hs : p ∈ seen
+        · simp [hk, hs, Good]
+        · simp only [List.contains_eq_mem, hk, hs, decide_false, Bool.false_eq_true, if_false]
+          have := ih (parentOf all p) (p :: seen)
+          generalize walk all kept n (parentOf all p) (p :: seen) = r at this ⊢
+          cases r with
+          | none => simp [Good]
+          | root => exact Reach.step this
+          | id q => exact ⟨this.1, Reach.step this.2⟩
+
+theorem repoint_correct'' (all kept : List Snap) :
+    ∀ s ∈ repoint all kept, ∃ o ∈ kept, o.id = s.id ∧ Good all (kept.map (·.id)) o.parent s.parent := by
+  intro s hs
+  simp only [repoint, List.mem_map] at hs
+  obtain ⟨o, ho, rfl⟩ := hs
+  exact ⟨o, ho, rfl, walk_sound _ _ _ _ _⟩
+
+theorem wf_empty'' : WF empty := by
+  constructor <;> simp [empty, Meta.ids]
+
+theorem rewrite_preserves_origin'' (es : List Entry) (deleted : List Nat) (same : Bool) (out : List Entry)
+    (h : rewrite es deleted = some (same, out)) :
+    (∀ e' ∈ out, ∃ e ∈ es, e'.file = e.file ∧ e'.addedSnap = e.addedSnap ∧ e'.seq = e.seq) ∧
+    out.map (·.file) = (es.map (·.file)).filter (fun f => !deleted.contains f) := by
+  simp only [rewrite] at h
+  split at h
+  · rename_i hl
+    simp only [Option.some.injEq, Prod.mk.injEq] at h
+    obtain ⟨-, rfl⟩ := h
+    have hl' : (es.filter fun e => !deleted.contains e.file).length = es.length := by simpa using hl
+    rw [List.length_filter_eq_length_iff] at hl'
+    refine ⟨fun e he => ⟨e, he, rfl, rfl, rfl⟩, ?_⟩
+    rw [List.filter_map]
+    congr 1
+    exact (List.filter_eq_self.2 hl').symm
+  · split at h
+    · cases h
+    · simp only [Option.some.injEq, Prod.mk.injEq] at h
+      obtain ⟨-, rfl⟩ := h
+      constructor
+      · intro e' he'
+        simp only [List.mem_map, List.mem_filter] at he'
+        obtain ⟨e, ⟨he, -⟩, rfl⟩ := he'
+        exact ⟨e, he, rfl, rfl, rfl⟩
+      · simp [List.filter_map, Function.comp_def]
+
+theorem rewrite_drops'' (es : List Entry) (deleted : List Nat)
+    (h : rewrite es deleted = none) : ∀ e ∈ es, e.file ∈ deleted := by
+  simp only [rewrite] at h
+  split at h
+  · cases h
+  · split at h
+    · rename_i hne he
+      intro e hmem
+      simp only [List.isEmpty_iff, List.filter_eq_nil_iff] at he
+      simpa using he e hmem
+    · cases h
+
+
+theorem mlog_bounded'' (now f : Nat) (base new : Meta) (k : Int) (hk : new.prevMax = some k) (h1 : 1 ≤ k)
+    (hlen : (new.mlog.length : Int) ≤ k) :
+    ((stamp now (some f) base new).mlog.length : Int) ≤ k ∧
+    ((stamp now (some f) base new).mlog <:+ (new.mlog ++ [(base.lastUpdated, f)]) ∨
+      (stamp now (some f) base new).mlog = new.mlog) := by
+  have key : ∀ l : List (Nat × Nat), ((l.length : Int) ≤ k + 1) → 
+      (((if k ≥ 1 ∧ (l.length : Int) > k then l.drop (l.length - k.toNat) else l).length : Int) ≤ k) ∧
+      (if k ≥ 1 ∧ (l.length : Int) > k then l.drop (l.length - k.toNat) else l) <:+ l := by
+    intro l hl
+    split
+    · refine ⟨?_, List.drop_suffix _ _⟩
+      simp only [List.length_drop]
+      omega
+    · exact ⟨by omega, List.suffix_refl _⟩
+  have hl : (((new.mlog ++ [(base.lastUpdated, f)]).length : Int) ≤ k + 1) := by
+    simp only [List.length_append, List.length_cons, List.length_nil]; omega
+  cases hg : new.mlog.getLast? with
+  | none =>
+    simp only [stamp, hk, hg, Bool.false_eq_true, if_false]
+    exact ⟨(key _ hl).1, Or.inl (key _ hl).2⟩
+  | some e =>
+    simp only [stamp, hk, hg]
+    by_cases he : (e.2 == f) = true
+    · rw [if_pos he]; exact ⟨hlen, Or.inr rfl⟩
+    · rw [if_neg he]; exact ⟨(key _ hl).1, Or.inl (key _ hl).2⟩
+
+/-- the fields `repoint` never touches -/
+def SameBut (s o : Snap) : Prop := s.id = o.id ∧ s.born = o.born ∧ s.seq = o.seq ∧ s.orig = o.orig ∧ s.ts = o.ts
+
+theorem repoint_ids (all kept : List Snap) : (repoint all kept).map (·.id) = kept.map (·.id) := by
+  simp [repoint, Function.comp_def]
+
+theorem repoint_fwd {all kept : List Snap} {o : Snap} (ho : o ∈ kept) : ∃ s ∈ repoint all kept, SameBut s o := by
+  refine ⟨_, List.mem_map.2 ⟨o, ho, rfl⟩, rfl, rfl, rfl, rfl, rfl⟩
+
+theorem repoint_bwd {all kept : List Snap} {hist : List (Nat × P)} (hnd : (all.map (·.id)).Nodup)
+    (hpo : ∀ s ∈ all, ∀ p, s.parent = P.id p → ∃ q ∈ all, q.id = p ∧ q.born < s.born)
+    (hpa : ∀ s ∈ all, ∀ p, s.parent = P.id p → Anc hist p s.id)
+    (hsub : ∀ s ∈ kept, s ∈ all) {s : Snap} (hs : s ∈ repoint all kept) :
+    ∃ o ∈ kept, SameBut s o ∧
+      ∀ q, s.parent = P.id q → ∃ k ∈ kept, k.id = q ∧ k.born < o.born ∧ Anc hist q o.id := by
+  obtain ⟨o, ho, hid, hgood⟩ := repoint_correct'' all kept s hs
+  simp only [repoint, List.mem_map] at hs
+  obtain ⟨o', ho', rfl⟩ := hs
+  refine ⟨o', ho', ⟨rfl, rfl, rfl, rfl, rfl⟩, ?_⟩
+  intro q hq
+  have hg := walk_sound all (kept.map (·.id)) (all.length + 1) o'.parent []
+  simp only at hq
+  rw [hq] at hg
+  obtain ⟨hqk, hreach⟩ := hg
+  obtain ⟨k, hk, hkid⟩ := List.mem_map.1 hqk
+  cases hp : o'.parent with
+  | none => rw [hp] at hreach; cases reach_none hreach
+  | root => rw [hp] at hreach; cases reach_root hreach
+  | id p =>
+    rw [hp] at hreach
+    obtain ⟨sp, hsp, hspid, hspb⟩ := hpo o' (hsub _ ho') p hp
+    obtain ⟨sq, hsq, hsqid, hsqb, hanc⟩ := reach_wf hnd hpo hpa hreach sp hsp (by rw [hspid]) q rfl
+    have : k = sq := eq_of_id_eq hnd (hsub _ hk) hsq (by rw [hkid, hsqid])
+    subst this
+    refine ⟨k, hk, hkid, by omega, ?_⟩
+    rw [hspid] at hanc
+    exact hanc.trans (hpa o' (hsub _ ho') p hp)
+
+theorem wf_repoint (m : Meta) (h : WF m) (kept : List Snap) (log' : List LogE)
+    (hsub : ∀ s ∈ kept, s ∈ m.snaps) (hnd : (kept.map (·.id)).Nodup)
+    (hlogsub : log'.Sublist m.log)
+    (hlog1 : ∀ e ∈ log', e.id ∈ kept.map (·.id))
+    (hlog2 : ∀ s ∈ kept, ∃ e ∈ log', e.id = s.id) :
+    WF { m with snaps := repoint m.snaps kept, log := log', cur := P.root } := by
+  have bwd := fun s (hs : s ∈ repoint m.snaps kept) =>
+    repoint_bwd (hist := m.hist) h.idsNodup h.parentOlder h.parentsAnc hsub hs
+  constructor
+  · show ((repoint m.snaps kept).map (·.id)).Nodup
+    rw [repoint_ids]; exact hnd
+  · exact Or.inl rfl
+  · intro s hs p hp
+    obtain ⟨o, ho, hso, hq⟩ := bwd s hs
+    obtain ⟨k, hk, hkid, hkb, -⟩ := hq p hp
+    obtain ⟨k', hk', hsk⟩ := repoint_fwd (all := m.snaps) hk
+    exact ⟨k', hk', by rw [hsk.1, hkid], by rw [hsk.2.1, hso.2.1]; exact hkb⟩
+  · intro s hs p hp
+    obtain ⟨o, ho, hso, hq⟩ := bwd s hs
+    obtain ⟨k, hk, hkid, hkb, hanc⟩ := hq p hp
+    show Anc m.hist p s.id
+    rw [hso.1]; exact hanc
+  · intro s hs
+    obtain ⟨o, ho, hso, -⟩ := bwd s hs
+    show s.seq ≤ m.lastSeq
+    rw [hso.2.2.1]; exact h.seqLe o (hsub o ho)
+  · intro s hs t ht hst
+    obtain ⟨o, ho, hso, -⟩ := bwd s hs
+    obtain ⟨o', ho', hto, -⟩ := bwd t ht
+    rw [hso.2.2.1, hto.2.2.1]
+    rw [hso.2.1, hto.2.1] at hst
+    exact h.seqMono o (hsub o ho) o' (hsub o' ho') hst
+  · intro s hs
+    obtain ⟨o, ho, hso, -⟩ := bwd s hs
+    show s.born < m.commits
+    rw [hso.2.1]; exact h.bornLt o (hsub o ho)
+  · intro s hs t ht hst
+    have hs' := hs
+    have ht' := ht
+    simp only [repoint, List.mem_map] at hs' ht'
+    obtain ⟨o, ho, rfl⟩ := hs'
+    obtain ⟨o', ho', rfl⟩ := ht'
+    have : o = o' := h.bornInj o (hsub o ho) o' (hsub o' ho') hst
+    subst this; rfl
+  · intro e he
+    obtain ⟨s, hs, hsid, hsb⟩ := h.logSub e (hlogsub.subset he)
+    obtain ⟨k, hk, hkid⟩ := List.mem_map.1 (hlog1 e he)
+    have : k = s := eq_of_id_eq h.idsNodup (hsub k hk) hs (by rw [hkid, hsid])
+    subst this
+    obtain ⟨k', hk', hsk⟩ := repoint_fwd (all := m.snaps) hk
+    exact ⟨k', hk', by rw [hsk.1, hsid], by rw [hsk.2.1, hsb]⟩
+  · exact h.logOrder.sublist hlogsub
+  · intro s hs
+    obtain ⟨o, ho, hso, -⟩ := bwd s hs
+    show (s.id, s.orig) ∈ m.hist
+    rw [hso.1, hso.2.2.2.1]; exact h.histOk o (hsub o ho)
+  · intro s hs
+    obtain ⟨o, ho, hso, -⟩ := bwd s hs
+    obtain ⟨e, he, heid⟩ := hlog2 o ho
+    exact ⟨e, he, by rw [heid, hso.1]⟩
+
+theorem wf_setCur (m : Meta) (h : WF m) (c : P)
+    (hc : c = P.root ∨ (c = P.none ∧ m.snaps = []) ∨ ∃ s ∈ m.snaps, c = P.id s.id) : WF { m with cur := c } :=
+  { h with curOk := hc }
+
+
+theorem wf_expire (c : Nat) (m : Meta) (h : WF m) : WF (expire c m) := by
+  let kept := m.snaps.filter fun s => decide (s.ts ≥ c) || (P.id s.id == m.cur)
+  have hsubl : kept.Sublist m.snaps := List.filter_sublist
+  have h1 := wf_repoint m h kept (m.log.filter fun e => (kept.map (·.id)).contains e.id)
+    (fun s hs => hsubl.subset hs) ((hsubl.map _).nodup h.idsNodup) List.filter_sublist
+    (by intro e he; simpa using (List.mem_filter.1 he).2)
+    (by
+      intro s hs
+      obtain ⟨e, he, heid⟩ := h.curLogged s (hsubl.subset hs)
+      refine ⟨e, List.mem_filter.2 ⟨he, ?_⟩, heid⟩
+      simp only [List.contains_eq_mem, List.mem_map, decide_eq_true_eq]
+      exact ⟨s, hs, heid.symm⟩)
+  refine wf_setCur _ h1 m.cur ?_
+  rcases h.curOk with hc | ⟨hc, hnil⟩ | ⟨s, hs, hc⟩
+  · exact Or.inl hc
+  · refine Or.inr (Or.inl ⟨hc, ?_⟩)
+    show repoint m.snaps kept = []
+    simp [repoint, kept, hnil]
+  · refine Or.inr (Or.inr ?_)
+    have hk : s ∈ kept := List.mem_filter.2 ⟨hs, by simp [hc]⟩
+    obtain ⟨s', hs', hss⟩ := repoint_fwd (all := m.snaps) hk
+    exact ⟨s', hs', by rw [hss.1]; exact hc⟩
+
+
+theorem wf_filterIds (m : Meta) (h : WF m) (l : List Snap) (ids : List Nat) (hperm : l.Perm m.snaps)
+    (hcur : ∀ c, m.cur = P.id c → c ∈ m.ids → c ∈ ids) :
+    WF { m with snaps := repoint m.snaps (l.filter fun s => ids.contains s.id),
+                log := m.log.filter fun e => ids.contains e.id } := by
+  let kept := l.filter fun s => ids.contains s.id
+  have hsubl : kept.Sublist l := List.filter_sublist
+  have hsub : ∀ s ∈ kept, s ∈ m.snaps := fun s hs => hperm.mem_iff.1 (hsubl.subset hs)
+  have hndl : (l.map (·.id)).Nodup := (hperm.map _).nodup_iff.2 h.idsNodup
+  have h1 := wf_repoint m h kept (m.log.filter fun e => ids.contains e.id)
+    hsub ((hsubl.map _).nodup hndl) List.filter_sublist
+    (by
+      intro e he
+      obtain ⟨he1, he2⟩ := List.mem_filter.1 he
+      obtain ⟨s, hs, hsid, -⟩ := h.logSub e he1
+      exact List.mem_map.2 ⟨s, List.mem_filter.2 ⟨hperm.mem_iff.2 hs, by rw [hsid]; exact he2⟩, hsid⟩)
+    (by
+      intro s hs
+      obtain ⟨e, he, heid⟩ := h.curLogged s (hsub s hs)
+      exact ⟨e, List.mem_filter.2 ⟨he, by rw [heid]; exact (List.mem_filter.1 hs).2⟩, heid⟩)
+  refine wf_setCur _ h1 m.cur ?_
+  rcases h.curOk with hc | ⟨hc, hnil⟩ | ⟨s, hs, hc⟩
+  · exact Or.inl hc
+  · refine Or.inr (Or.inl ⟨hc, ?_⟩)
+    show repoint m.snaps kept = []
+    have : l = [] := by rw [hnil] at hperm; exact hperm.eq_nil
+    simp [repoint, kept, this]
+  · refine Or.inr (Or.inr ?_)
+    have hk : s ∈ kept := List.mem_filter.2 ⟨hperm.mem_iff.2 hs, by
+      simpa using hcur s.id hc (List.mem_map.2 ⟨s, hs, rfl⟩)⟩
+    obtain ⟨s', hs', hss⟩ := repoint_fwd (all := m.snaps) hk
+    exact ⟨s', hs', by rw [hss.1]; exact hc⟩
+
+theorem retain_ids_cur (m : Meta) (ids0 : List Nat) (c : Nat) (hc : m.cur = P.id c) (hmem : c ∈ m.ids) :
+    c ∈ (match m.cur with
+        | P.id c => if ids0.contains c then ids0 else
+            (match m.snaps.find? (fun (s : Snap) => s.id == c) with | some _ => ids0 ++ [c] | Option.none => ids0)
+        | _ => ids0) := by
+  rw [hc]
+  simp only
+  split
+  · rename_i hh; simpa using hh
+  · split
+    · simp
+    · rename_i hnone
+      rw [List.find?_eq_none] at hnone
+      obtain ⟨s, hs, hsid⟩ := List.mem_map.1 hmem
+      exact absurd (by simpa using hsid) (hnone s hs)
+
+theorem wf_retain (m : Meta) (h : WF m) : WF (retain m) := by
+  unfold retain
+  split
+  · exact h
+  · split
+    · exact h
+    · exact wf_filterIds m h _ _ (List.mergeSort_perm _ _) (fun c hc hmem => retain_ids_cur m _ c hc hmem)
+
+
+/-- the metadata right after appending the new snapshot (before expiry / retention) -/
+def addRaw (now id : Nat) (base : Meta) : Meta :=
+  let seq := base.lastSeq + 1
+  let parent := match base.cur with | P.none => P.root | c => c
+  let s : Snap := { id := id, ts := now, seq := seq, parent := parent, born := base.commits, orig := parent }
+  { base with snaps := base.snaps ++ [s], cur := P.id id, lastSeq := max base.lastSeq seq,
+              log := base.log ++ [⟨now, id, base.commits⟩], commits := base.commits + 1,
+              hist := base.hist ++ [(id, parent)] }
+
+theorem addSnap_eq (now id : Nat) (cutoff : Option Nat) (base : Meta) :
+    addSnap now id cutoff base =
+      (let m2 := match cutoff with | some c => expire c (addRaw now id base) | Option.none => addRaw now id base
+       if cutoff.isSome && m2.snaps.all (·.id != id) then .error .mutatorRemovedSnapshot
+       else .ok (retain m2)) := rfl
+
+theorem wf_addRaw (now id : Nat) (m : Meta) (h : WF m) (hid : id ∉ m.hist.map (·.1)) : WF (addRaw now id m) := by
+  have hfresh : ∀ s ∈ m.snaps, s.id ≠ id := by
+    intro s hs he
+    exact hid (List.mem_map.2 ⟨_, h.histOk s hs, he⟩)
+  have hpar : ∀ p, (match m.cur with | P.none => P.root | c => c) = P.id p → ∃ q ∈ m.snaps, q.id = p := by
+    intro p hp
+    rcases h.curOk with hc | ⟨hc, -⟩ | ⟨s, hs, hc⟩
+    · rw [hc] at hp; cases hp
+    · rw [hc] at hp; cases hp
+    · rw [hc] at hp; cases hp; exact ⟨s, hs, rfl⟩
+  constructor
+  · show ((m.snaps ++ [_]).map (fun (x : Snap) => x.id)).Nodup
+    simp only [List.map_append, List.map_cons, List.map_nil]
+    rw [List.nodup_append]
+    refine ⟨h.idsNodup, by simp, ?_⟩
+    intro a ha b hb
+    simp only [List.mem_cons, List.not_mem_nil, or_false] at hb
+    obtain ⟨s, hs, rfl⟩ := List.mem_map.1 ha
+    rw [hb]; exact hfresh s hs
+  · exact Or.inr (Or.inr ⟨_, List.mem_append_right _ (List.mem_singleton.2 rfl), rfl⟩)
+  · intro s hs p hp
+    simp only [addRaw, List.mem_append, List.mem_singleton] at hs
+    rcases hs with hs | rfl
+    · obtain ⟨q, hq, hqid, hqb⟩ := h.parentOlder s hs p hp
+      exact ⟨q, List.mem_append_left _ hq, hqid, hqb⟩
+    · obtain ⟨q, hq, hqid⟩ := hpar p hp
+      exact ⟨q, List.mem_append_left _ hq, hqid, h.bornLt q hq⟩
+  · intro s hs p hp
+    simp only [addRaw, List.mem_append, List.mem_singleton] at hs
+    rcases hs with hs | rfl
+    · exact (h.parentsAnc s hs p hp).mono (fun x hx => List.mem_append_left _ hx)
+    · simp only at hp
+      refine Anc.step (p := p) ?_ (Anc.refl _)
+      simp only [addRaw, List.mem_append, List.mem_singleton]
+      exact Or.inr (by rw [hp])
+  · intro s hs
+    simp only [addRaw, List.mem_append, List.mem_singleton] at hs ⊢
+    rcases hs with hs | rfl
+    · have := h.seqLe s hs; omega
+    · simp only; omega
+  · intro s hs t ht hst
+    simp only [addRaw, List.mem_append, List.mem_singleton] at hs ht
+    rcases hs with hs | rfl <;> rcases ht with ht | rfl
+    · exact h.seqMono s hs t ht hst
+    · have := h.seqLe s hs; simp only; omega
+    · have := h.bornLt t ht; simp only at hst; omega
+    · simp only at hst; omega
+  · intro s hs
+    simp only [addRaw, List.mem_append, List.mem_singleton] at hs ⊢
+    rcases hs with hs | rfl
+    · have := h.bornLt s hs; omega
+    · simp only; omega
+  · intro s hs t ht hst
+    simp only [addRaw, List.mem_append, List.mem_singleton] at hs ht
+    rcases hs with hs | rfl <;> rcases ht with ht | rfl
+    · exact h.bornInj s hs t ht hst
+    · have := h.bornLt s hs; simp only at hst; omega
+    · have := h.bornLt t ht; simp only at hst; omega
+    · rfl
+  · intro e he
+    simp only [addRaw, List.mem_append, List.mem_singleton] at he ⊢
+    rcases he with he | rfl
+    · obtain ⟨s, hs, h1, h2⟩ := h.logSub e he
+      exact ⟨s, Or.inl hs, h1, h2⟩
+    · exact ⟨_, Or.inr rfl, rfl, rfl⟩
+  · show (m.log ++ [_]).Pairwise _
+    rw [List.pairwise_append]
+    refine ⟨h.logOrder, by simp, ?_⟩
+    intro a ha b hb
+    simp only [List.mem_singleton] at hb
+    subst hb
+    obtain ⟨s, hs, -, h2⟩ := h.logSub a ha
+    have := h.bornLt s hs
+    simp only; omega
+  · intro s hs
+    simp only [addRaw, List.mem_append, List.mem_singleton] at hs ⊢
+    rcases hs with hs | rfl
+    · exact Or.inl (h.histOk s hs)
+    · exact Or.inr rfl
+  · intro s hs
+    simp only [addRaw, List.mem_append, List.mem_singleton] at hs ⊢
+    rcases hs with hs | rfl
+    · obtain ⟨e, he, h1⟩ := h.curLogged s hs
+      exact ⟨e, Or.inl he, h1⟩
+    · exact ⟨_, Or.inr rfl, rfl⟩
+
+
+theorem mostRecent_spec (m : Meta) (h : WF m) :
+    (m.snaps = [] ∧ mostRecent m = P.none) ∨
+    (∃ r ∈ m.snaps, mostRecent m = P.id r.id ∧ ∀ s ∈ m.snaps, s.born ≤ r.born) := by
+  by_cases hnil : m.snaps = []
+  · exact Or.inl ⟨hnil, by simp [mostRecent, hnil]⟩
+  · right
+    have hne : m.snaps.isEmpty = false := by simpa using hnil
+    have hp : ∀ e ∈ m.log, m.ids.contains e.id = true := by
+      intro e he
+      obtain ⟨s, hs, hsid, -⟩ := h.logSub e he
+      simp only [Meta.ids, List.contains_eq_mem, List.mem_map, decide_eq_true_eq]
+      exact ⟨s, hs, hsid⟩
+    cases hf : m.log.reverse.find? (fun e => m.ids.contains e.id) with
+    | none =>
+      exfalso
+      obtain ⟨a, ha⟩ := List.exists_mem_of_ne_nil _ hnil
+      obtain ⟨e, he, -⟩ := h.curLogged a ha
+      rw [List.find?_eq_none] at hf
+      exact hf e (List.mem_reverse.2 he) (hp e he)
+    | some e =>
+      simp only [mostRecent, hne, hf, Bool.false_eq_true, if_false]
+      obtain ⟨-, as, bs, hrev, has⟩ := List.find?_eq_some_iff_append.1 hf
+      have has' : as = [] := by
+        cases as with
+        | nil => rfl
+        | cons a0 as =>
+          have h0 : a0 ∈ m.log := List.mem_reverse.1 (by rw [hrev]; simp)
+          have := has a0 (List.mem_cons_self)
+          rw [hp a0 h0] at this
+          cases this
+      subst has'
+      have hlog : m.log = bs.reverse ++ [e] := by
+        have := congrArg List.reverse hrev
+        simpa using this
+      have hle : ∀ x ∈ m.log, x.born ≤ e.born := by
+        intro x hx
+        have hord := h.logOrder
+        rw [hlog] at hx hord
+        rw [List.pairwise_append] at hord
+        rcases List.mem_append.1 hx with hx | hx
+        · exact Nat.le_of_lt (hord.2.2 x hx e (List.mem_singleton.2 rfl))
+        · rw [List.mem_singleton.1 hx]; exact Nat.le_refl _
+      have he : e ∈ m.log := by rw [hlog]; simp
+      obtain ⟨r, hr, hrid, hrb⟩ := h.logSub e he
+      refine ⟨r, hr, by rw [hrid], ?_⟩
+      intro s hs
+      obtain ⟨es, hes, hesid⟩ := h.curLogged s hs
+      obtain ⟨s', hs', hs'id, hs'b⟩ := h.logSub es hes
+      have : s' = s := eq_of_id_eq h.idsNodup hs' hs (by rw [hs'id, hesid])
+      subst this
+      rw [hs'b, hrb]; exact hle es hes
+
+theorem eraseP_id_ne {l : List Snap} (hnd : (l.map (·.id)).Nodup) (i : Nat) :
+    ∀ s ∈ l.eraseP (fun x => x.id == i), s.id ≠ i := by
+  induction l with
+  | nil => intro s hs; cases hs
+  | cons a l ih =>
+    simp only [List.map_cons, List.nodup_cons, List.mem_map, not_exists, not_and] at hnd
+    intro s hs
+    rw [List.eraseP_cons] at hs
+    cases ha : a.id == i with
+    | true =>
+      rw [ha] at hs
+      simp only [beq_iff_eq] at ha
+      intro hsi
+      exact hnd.1 s hs (by rw [hsi, ha])
+    | false =>
+      rw [ha] at hs
+      simp only [beq_eq_false_iff_ne, ne_eq] at ha
+      rcases List.mem_cons.1 hs with rfl | hs
+      · exact ha
+      · exact ih hnd.2 s hs
+
+/-- `delSnap` before the current pointer is fixed up -/
+def delRaw (id : Nat) (m : Meta) : Meta :=
+  { m with snaps := repoint m.snaps (m.snaps.eraseP (fun x => x.id == id)),
+           log := m.log.filter (fun e => e.id != id) }
+
+theorem delSnap_spec (id : Nat) (m m' : Meta) (hd : delSnap id m = some m') :
+    m.snaps ≠ [] ∧
+    m' = (if (delRaw id m).cur == P.id id then { delRaw id m with cur := mostRecent (delRaw id m) }
+          else delRaw id m) := by
+  unfold delRaw
+  unfold delSnap at hd
+  split at hd
+  · cases hd
+  · rename_i i hi
+    have he : m.snaps.eraseP (fun x => x.id == id) = m.snaps.eraseIdx i := by
+      rw [List.eraseP_eq_eraseIdx, hi]
+    rw [he]
+    simp only [Option.some.injEq] at hd
+    refine ⟨?_, hd.symm⟩
+    intro hnil
+    rw [hnil] at hi
+    simp at hi
+
+theorem wf_delSnap (id : Nat) (m m' : Meta) (h : WF m) (hd : delSnap id m = some m') : WF m' := by
+  obtain ⟨hne, rfl⟩ := delSnap_spec id m m' hd
+  let kept := m.snaps.eraseP (fun x => x.id == id)
+  have hsubl : kept.Sublist m.snaps := List.eraseP_sublist
+  have hkne : ∀ s ∈ kept, s.id ≠ id := eraseP_id_ne h.idsNodup id
+  have hkmem : ∀ s ∈ m.snaps, s.id ≠ id → s ∈ kept := by
+    intro s hs hsi
+    exact (List.mem_eraseP_of_neg (by simpa using hsi)).2 hs
+  have h1 := wf_repoint m h kept (m.log.filter fun e => e.id != id)
+    (fun s hs => hsubl.subset hs) ((hsubl.map _).nodup h.idsNodup) List.filter_sublist
+    (by
+      intro e he
+      obtain ⟨he1, he2⟩ := List.mem_filter.1 he
+      obtain ⟨s, hs, hsid, -⟩ := h.logSub e he1
+      exact List.mem_map.2 ⟨s, hkmem s hs (by rw [hsid]; simpa using he2), hsid⟩)
+    (by
+      intro s hs
+      obtain ⟨e, he, heid⟩ := h.curLogged s (hsubl.subset hs)
+      exact ⟨e, List.mem_filter.2 ⟨he, by rw [heid]; simpa using hkne s hs⟩, heid⟩)
+  split
+  · refine wf_setCur _ h1 _ ?_
+    rcases mostRecent_spec _ h1 with ⟨h2, h3⟩ | ⟨r, hr, hrc, -⟩
+    · exact Or.inr (Or.inl ⟨h3, h2⟩)
+    · exact Or.inr (Or.inr ⟨r, hr, hrc⟩)
+  · rename_i hcne
+    refine wf_setCur _ h1 m.cur ?_
+    rcases h.curOk with hc | ⟨hc, hnil⟩ | ⟨s, hs, hc⟩
+    · exact Or.inl hc
+    · exact absurd hnil hne
+    · refine Or.inr (Or.inr ?_)
+      have hk : s ∈ kept := hkmem s hs (by
+        intro hsi
+        apply hcne
+        show (m.cur == P.id id) = true
+        rw [hc, hsi]; exact beq_self_eq_true _)
+      obtain ⟨s', hs', hss⟩ := repoint_fwd (all := m.snaps) hk
+      exact ⟨s', hs', by rw [hss.1]; exact hc⟩
+
+
+theorem step_add (m : Meta) (now id : Nat) (cutoff : Option Nat) :
+    step m (.add now id cutoff) = m ∨
+    step m (.add now id cutoff) =
+      retain (match cutoff with | some c => expire c (addRaw now id m) | Option.none => addRaw now id m) := by
+  have key : ∀ (b : Bool) (x : Meta),
+      (match (if b = true then Except.error Err.mutatorRemovedSnapshot else Except.ok x : Except Err Meta) with
+        | .ok m' => m' | .error _ => m) = m ∨
+      (match (if b = true then Except.error Err.mutatorRemovedSnapshot else Except.ok x : Except Err Meta) with
+        | .ok m' => m' | .error _ => m) = x := by
+    intro b x; cases b <;> simp
+  exact key _ _
+
+theorem wf_step'' (m : Meta) (op : Op) (h : WF m) (hop : OpOk m op) : WF (step m op) := by
+  cases op with
+  | add now id cutoff =>
+    have hraw := wf_addRaw now id m h hop
+    rcases step_add m now id cutoff with he | he
+    · rw [he]; exact h
+    · rw [he]
+      cases cutoff with
+      | none => exact wf_retain _ hraw
+      | some c => exact wf_retain _ (wf_expire c _ hraw)
+  | expireOnly c => exact wf_expire c m h
+  | del id =>
+    simp only [step]
+    cases hd : delSnap id m with
+    | none => exact h
+    | some m' => exact wf_delSnap id m m' h hd
+  | setRetention r => exact { h with }
+  | setPrevMax r => exact { h with }
+
+theorem wf_history'' (ops : List Op) : ∀ m, WF m → OpsOk m ops → WF (ops.foldl step m) := by
+  induction ops with
+  | nil => intro m h _; exact h
+  | cons op rest ih =>
+    intro m h hok
+    exact ih _ (wf_step'' m op h hok.1) hok.2
+
+theorem retain_lastSeq (m : Meta) : (retain m).lastSeq = m.lastSeq := by
+  unfold retain
+  split
+  · rfl
+  · split <;> rfl
+
+theorem retain_cur (m : Meta) : (retain m).cur = m.cur := by
+  unfold retain
+  split
+  · rfl
+  · split <;> rfl
+
+theorem last_seq_monotone'' (m : Meta) (op : Op) : m.lastSeq ≤ (step m op).lastSeq := by
+  cases op with
+  | add now id cutoff =>
+    rcases step_add m now id cutoff with he | he
+    · rw [he]; exact Nat.le_refl _
+    · rw [he, retain_lastSeq]
+      cases cutoff with
+      | none => exact Nat.le_max_left _ _
+      | some c => exact Nat.le_max_left _ _
+  | expireOnly c => exact Nat.le_refl _
+  | del id =>
+    simp only [step]
+    cases hd : delSnap id m with
+    | none => exact Nat.le_refl _
+    | some m' =>
+      obtain ⟨-, rfl⟩ := delSnap_spec id m m' hd
+      simp only
+      split <;> exact Nat.le_refl _
+  | setRetention r => exact Nat.le_refl _
+  | setPrevMax r => exact Nat.le_refl _
+
+theorem lookup_by_id'' (m : Meta) (h : WF m) (s : Snap) (hs : s ∈ m.snaps) : byId s.id m = some s :=
+  find?_id h.idsNodup hs
+
+theorem current_never_expired'' (c : Nat) (m : Meta) (i : Nat) (h : m.cur = P.id i) (hi : i ∈ m.ids) :
+    (expire c m).cur = P.id i ∧ i ∈ (expire c m).ids := by
+  refine ⟨h, ?_⟩
+  obtain ⟨s, hs, rfl⟩ := List.mem_map.1 hi
+  show s.id ∈ (repoint _ _).map (·.id)
+  rw [repoint_ids]
+  exact List.mem_map.2 ⟨s, List.mem_filter.2 ⟨hs, by simp [h]⟩, rfl⟩
+
+theorem current_never_retained_away'' (m : Meta) (i : Nat) (h : m.cur = P.id i) (hi : i ∈ m.ids) :
+    (retain m).cur = P.id i ∧ i ∈ (retain m).ids := by
+  refine ⟨by rw [retain_cur]; exact h, ?_⟩
+  unfold retain
+  split
+  · exact hi
+  · split
+    · exact hi
+    · obtain ⟨s, hs, rfl⟩ := List.mem_map.1 hi
+      show s.id ∈ (repoint _ _).map (·.id)
+      rw [repoint_ids]
+      refine List.mem_map.2 ⟨s, List.mem_filter.2 ⟨(List.mergeSort_perm _ _).mem_iff.2 hs, ?_⟩, rfl⟩
+      exact List.contains_iff_mem.2 (retain_ids_cur m _ s.id h hi)
+
+theorem delete_current_repoints'' (m m' : Meta) (h : WF m) (i : Nat) (hc : m.cur = P.id i) (hd : delSnap i m = some m') :
+    (m'.snaps = [] ∧ m'.cur = P.none) ∨
+    (∃ r ∈ m'.snaps, m'.cur = P.id r.id ∧ ∀ s ∈ m'.snaps, s.born ≤ r.born) := by
+  have hwf := wf_delSnap i m m' h hd
+  obtain ⟨-, rfl⟩ := delSnap_spec i m m' hd
+  have hcur : ((delRaw i m).cur == P.id i) = true := by
+    show (m.cur == P.id i) = true
+    rw [hc]; exact beq_self_eq_true _
+  rw [if_pos hcur] at hwf ⊢
+  exact mostRecent_spec _ hwf
+
+
+def BS (l : List Snap) : Prop := l.Pairwise (fun a b => a.born < b.born)
+def TM (l : List Snap) : Prop := ∀ s ∈ l, ∀ t ∈ l, s.born < t.born → s.ts ≤ t.ts
+
+theorem bs_repoint {all kept : List Snap} (h : BS kept) : BS (repoint all kept) := by
+  unfold BS repoint
+  rw [List.pairwise_map]
+  exact h
+
+theorem tm_repoint {all kept : List Snap} (h : TM kept) : TM (repoint all kept) := by
+  intro s hs t ht hst
+  simp only [repoint, List.mem_map] at hs ht
+  obtain ⟨o, ho, rfl⟩ := hs
+  obtain ⟨o', ho', rfl⟩ := ht
+  exact h o ho o' ho' hst
+
+theorem tm_sub {l kept : List Snap} (hsub : ∀ s ∈ kept, s ∈ l) (h : TM l) : TM kept :=
+  fun s hs t ht hst => h s (hsub s hs) t (hsub t ht) hst
+
+theorem sortByTs_eq {l : List Snap} (hb : BS l) (ht : TM l) : sortByTs l = l := by
+  unfold sortByTs
+  apply List.mergeSort_of_pairwise
+  refine List.Pairwise.imp_of_mem ?_ hb
+  intro a b ha hb' hab
+  simpa using ht a ha b hb' hab
+
+theorem mono_sub (m : Meta) (kept : List Snap) (hsub : kept.Sublist m.snaps) (hb : BornSorted m) (ht : TsMono m) :
+    BS (repoint m.snaps kept) ∧ TM (repoint m.snaps kept) :=
+  ⟨bs_repoint (List.Pairwise.sublist hsub hb), tm_repoint (tm_sub (fun _ hs => hsub.subset hs) ht)⟩
+
+theorem mono_expire (c : Nat) (m : Meta) (hb : BornSorted m) (ht : TsMono m) :
+    BornSorted (expire c m) ∧ TsMono (expire c m) :=
+  mono_sub m _ List.filter_sublist hb ht
+
+theorem mono_retain (m : Meta) (hb : BornSorted m) (ht : TsMono m) :
+    BornSorted (retain m) ∧ TsMono (retain m) := by
+  unfold retain
+  split
+  · exact ⟨hb, ht⟩
+  · split
+    · exact ⟨hb, ht⟩
+    · have hs : sortByTs m.snaps = m.snaps := sortByTs_eq hb ht
+      refine mono_sub m _ ?_ hb ht
+      simp only [hs]
+      exact List.filter_sublist
+
+theorem mono_addRaw (now id : Nat) (m : Meta) (h : WF m) (hb : BornSorted m) (ht : TsMono m)
+    (hm : ∀ s ∈ m.snaps, s.ts ≤ now) :
+    BornSorted (addRaw now id m) ∧ TsMono (addRaw now id m) := by
+  constructor
+  · show (m.snaps ++ [_]).Pairwise _
+    rw [List.pairwise_append]
+    refine ⟨hb, by simp, ?_⟩
+    intro a ha b hb'
+    simp only [List.mem_singleton] at hb'
+    subst hb'
+    exact h.bornLt a ha
+  · intro s hs t ht' hst
+    simp only [addRaw, List.mem_append, List.mem_singleton] at hs ht'
+    rcases hs with hs | rfl <;> rcases ht' with ht' | rfl
+    · exact ht s hs t ht' hst
+    · exact hm s hs
+    · have := h.bornLt t ht'; simp only at hst; omega
+    · exact Nat.le_refl _
+
+theorem mono_step'' (m : Meta) (op : Op) (h : WF m) (hb : BornSorted m) (ht : TsMono m) (hop : OpOk m op) (hm : OpMono m op) :
+    BornSorted (step m op) ∧ TsMono (step m op) := by
+  cases op with
+  | add now id cutoff =>
+    have hraw := mono_addRaw now id m h hb ht hm
+    rcases step_add m now id cutoff with he | he
+    · rw [he]; exact ⟨hb, ht⟩
+    · rw [he]
+      cases cutoff with
+      | none => exact mono_retain _ hraw.1 hraw.2
+      | some c =>
+        have := mono_expire c _ hraw.1 hraw.2
+        exact mono_retain _ this.1 this.2
+  | expireOnly c => exact mono_expire c m hb ht
+  | del id =>
+    simp only [step]
+    cases hd : delSnap id m with
+    | none => exact ⟨hb, ht⟩
+    | some m' =>
+      show BornSorted m' ∧ TsMono m'
+      obtain ⟨-, rfl⟩ := delSnap_spec id m m' hd
+      have := mono_sub m (m.snaps.eraseP (fun x => x.id == id)) List.eraseP_sublist hb ht
+      split <;> exact this
+  | setRetention r => exact ⟨hb, ht⟩
+  | setPrevMax r => exact ⟨hb, ht⟩
+
+theorem takeWhile_last (t : Nat) : ∀ (l : List Snap), BS l → TM l →
+    (∀ r, (l.takeWhile fun s => decide (s.ts ≤ t)).getLast? = some r →
+        r ∈ l ∧ r.ts ≤ t ∧ ∀ s ∈ l, s.ts ≤ t → s.born ≤ r.born) ∧
+    ((l.takeWhile fun s => decide (s.ts ≤ t)).getLast? = none → ∀ s ∈ l, ¬ s.ts ≤ t) := by
+  intro l
+  induction l with
+  | nil => intro _ _; simp
+  | cons a l ih =>
+    intro hb ht
+    have hb' : BS l := (List.pairwise_cons.1 hb).2
+    have hal : ∀ s ∈ l, a.born < s.born := (List.pairwise_cons.1 hb).1
+    have ht' : TM l := tm_sub (fun s hs => List.mem_cons_of_mem _ hs) ht
+    have hats : ∀ s ∈ l, a.ts ≤ s.ts := fun s hs => ht a List.mem_cons_self s (List.mem_cons_of_mem _ hs) (hal s hs)
+    obtain ⟨ih1, ih2⟩ := ih hb' ht'
+    by_cases hat : a.ts ≤ t
+    · rw [List.takeWhile_cons_of_pos (by simpa using hat), List.getLast?_cons]
+      refine ⟨?_, by simp⟩
+      intro r hr
+      cases hg : (l.takeWhile fun s => decide (s.ts ≤ t)).getLast? with
+      | none =>
+        rw [hg] at hr
+        simp only [Option.getD_none, Option.some.injEq] at hr
+        subst hr
+        refine ⟨List.mem_cons_self, hat, ?_⟩
+        intro s hs hst
+        rcases List.mem_cons.1 hs with rfl | hs
+        · exact Nat.le_refl _
+        · exact absurd hst (ih2 hg s hs)
+      | some r' =>
+        rw [hg] at hr
+        simp only [Option.getD_some, Option.some.injEq] at hr
+        subst hr
+        obtain ⟨h1, h2, h3⟩ := ih1 _ hg
+        refine ⟨List.mem_cons_of_mem _ h1, h2, ?_⟩
+        intro s hs hst
+        rcases List.mem_cons.1 hs with rfl | hs
+        · exact Nat.le_of_lt (hal _ h1)
+        · exact h3 s hs hst
+    · rw [List.takeWhile_cons_of_neg (by simpa using hat)]
+      refine ⟨by simp, ?_⟩
+      intro _ s hs
+      rcases List.mem_cons.1 hs with rfl | hs
+      · exact hat
+      · have := hats s hs; omega
+
+theorem lookup_by_timestamp'' (m : Meta) (_h : WF m) (hs : BornSorted m) (hmono : TsMono m) (t : Nat) :
+    (∀ r, byTime t m = some r → r ∈ m.snaps ∧ r.ts ≤ t ∧ ∀ s ∈ m.snaps, s.ts ≤ t → s.born ≤ r.born) ∧
+    (byTime t m = none → ∀ s ∈ m.snaps, ¬ s.ts ≤ t) := by
+  unfold byTime
+  rw [sortByTs_eq hs hmono]
+  exact takeWhile_last t m.snaps hs hmono
+
+theorem wf_empty' : WF empty :=
+  wf_empty''
 /-- with a non-decreasing clock, the snapshot list stays in commit order and timestamps follow commit order -/
 theorem mono_step' (m : Meta) (op : Op) (h : WF m) (hb : BornSorted m) (ht : TsMono m) (hop : OpOk m op) (hm : OpMono m op) :
-    BornSorted (step m op) ∧ TsMono (step m op) := by sorry
-theorem wf_step' (m : Meta) (op : Op) (h : WF m) (hop : OpOk m op) : WF (step m op) := by sorry
-theorem wf_history' (ops : List Op) (hops : OpsOk empty ops) : WF (run ops) := by sorry
-theorem last_seq_monotone' (m : Meta) (op : Op) : m.lastSeq ≤ (step m op).lastSeq := by sorry
+    BornSorted (step m op) ∧ TsMono (step m op) :=
+  mono_step'' m op h hb ht hop hm
+theorem wf_step' (m : Meta) (op : Op) (h : WF m) (hop : OpOk m op) : WF (step m op) :=
+  wf_step'' m op h hop
+theorem wf_history' (ops : List Op) (hops : OpsOk empty ops) : WF (run ops) :=
+  wf_history'' ops empty wf_empty'' hops
+theorem last_seq_monotone' (m : Meta) (op : Op) : m.lastSeq ≤ (step m op).lastSeq :=
+  last_seq_monotone'' m op
 theorem repoint_correct' (all kept : List Snap) :
-    ∀ s ∈ repoint all kept, ∃ o ∈ kept, o.id = s.id ∧ Good all (kept.map (·.id)) o.parent s.parent := by sorry
+    ∀ s ∈ repoint all kept, ∃ o ∈ kept, o.id = s.id ∧ Good all (kept.map (·.id)) o.parent s.parent :=
+  repoint_correct'' all kept
 theorem current_never_expired' (c : Nat) (m : Meta) (i : Nat) (h : m.cur = P.id i) (hi : i ∈ m.ids) :
-    (expire c m).cur = P.id i ∧ i ∈ (expire c m).ids := by sorry
+    (expire c m).cur = P.id i ∧ i ∈ (expire c m).ids :=
+  current_never_expired'' c m i h hi
 theorem current_never_retained_away' (m : Meta) (i : Nat) (h : m.cur = P.id i) (hi : i ∈ m.ids) :
-    (retain m).cur = P.id i ∧ i ∈ (retain m).ids := by sorry
+    (retain m).cur = P.id i ∧ i ∈ (retain m).ids :=
+  current_never_retained_away'' m i h hi
 theorem mlog_bounded' (now f : Nat) (base new : Meta) (k : Int) (hk : new.prevMax = some k) (h1 : 1 ≤ k)
     (hlen : (new.mlog.length : Int) ≤ k) :
     ((stamp now (some f) base new).mlog.length : Int) ≤ k ∧
     ((stamp now (some f) base new).mlog <:+ (new.mlog ++ [(base.lastUpdated, f)]) ∨
-      (stamp now (some f) base new).mlog = new.mlog) := by sorry
+      (stamp now (some f) base new).mlog = new.mlog) :=
+  mlog_bounded'' now f base new k hk h1 hlen
 theorem rewrite_preserves_origin' (es : List Entry) (deleted : List Nat) (same : Bool) (out : List Entry)
     (h : rewrite es deleted = some (same, out)) :
     (∀ e' ∈ out, ∃ e ∈ es, e'.file = e.file ∧ e'.addedSnap = e.addedSnap ∧ e'.seq = e.seq) ∧
-    out.map (·.file) = (es.map (·.file)).filter (fun f => !deleted.contains f) := by sorry
+    out.map (·.file) = (es.map (·.file)).filter (fun f => !deleted.contains f) :=
+  rewrite_preserves_origin'' es deleted same out h
 theorem rewrite_drops' (es : List Entry) (deleted : List Nat)
-    (h : rewrite es deleted = none) : ∀ e ∈ es, e.file ∈ deleted := by sorry
-theorem lookup_by_id' (m : Meta) (h : WF m) (s : Snap) (hs : s ∈ m.snaps) : byId s.id m = some s := by sorry
+    (h : rewrite es deleted = none) : ∀ e ∈ es, e.file ∈ deleted :=
+  rewrite_drops'' es deleted h
+theorem lookup_by_id' (m : Meta) (h : WF m) (s : Snap) (hs : s ∈ m.snaps) : byId s.id m = some s :=
+  lookup_by_id'' m h s hs
 theorem lookup_by_timestamp' (m : Meta) (h : WF m) (hs : BornSorted m) (hmono : TsMono m) (t : Nat) :
     (∀ r, byTime t m = some r → r ∈ m.snaps ∧ r.ts ≤ t ∧ ∀ s ∈ m.snaps, s.ts ≤ t → s.born ≤ r.born) ∧
-    (byTime t m = none → ∀ s ∈ m.snaps, ¬ s.ts ≤ t) := by sorry
+    (byTime t m = none → ∀ s ∈ m.snaps, ¬ s.ts ≤ t) :=
+  lookup_by_timestamp'' m h hs hmono t
 theorem delete_current_repoints' (m m' : Meta) (h : WF m) (i : Nat) (hc : m.cur = P.id i) (hd : delSnap i m = some m') :
     (m'.snaps = [] ∧ m'.cur = P.none) ∨
-    (∃ r ∈ m'.snaps, m'.cur = P.id r.id ∧ ∀ s ∈ m'.snaps, s.born ≤ r.born) := by sorry
+    (∃ r ∈ m'.snaps, m'.cur = P.id r.id ∧ ∀ s ∈ m'.snaps, s.born ≤ r.born) :=
+  delete_current_repoints'' m m' h i hc hd
 
 end DSV.Meta
+
